@@ -397,7 +397,9 @@ func TestC13(t *testing.T) {
 			j := runs["json"]
 			for _, m := range modes[1:] {
 				r := runs[m]
-				if j.Panic == nil && r.Panic == nil && (vlib.JSON(j.State) != vlib.JSON(r.State) || strings.Join(j.Verbs, ",") != strings.Join(r.Verbs, ",")) {
+				// API actions are compared with the reference above (an Update with identical
+				// content after a JQPatch is optional); between renderings only the final state must agree.
+				if j.Panic == nil && r.Panic == nil && vlib.JSON(j.State) != vlib.JSON(r.State) {
 					res.Violate("json-yaml-disagree/"+m, "%s\njson: verbs %v state %s\n%s: verbs %v state %s", desc("json"), j.Verbs, vlib.JSON(j.State), m, r.Verbs, vlib.JSON(r.State))
 				}
 			}
